@@ -207,6 +207,11 @@ func zzGen(mask int, depth int, allowNullable bool) (*schemas.Type, *zzSpec) {
 			}
 		}
 		t.MinLength, t.MaxLength, t.Pattern = s.minLen, s.maxLen, s.pattern
+		if zzvrt.Param("STRFMT", 0) == 1 && zzvrt.Bool() {
+			// a format the generator maps to no library type is an annotation: the string stays
+			// a plain string and keeps its rules
+			t.Format = []string{"email", "uuid", "hostname"}[zzvrt.Choice(3)]
+		}
 	case zzKNumber:
 		s.kind = "number"
 		t.Type = zzTypeList("number", nullable)
@@ -334,6 +339,10 @@ func zzGen(mask int, depth int, allowNullable bool) (*schemas.Type, *zzSpec) {
 		// free text that ends up in comments of the emitted file
 		t.Description = "first line\nsecond */ line // with \"quotes\", `backticks`, 100%d and a trailing backslash \\"
 		t.Title = "A */ title\nwith a newline"
+		if zzvrt.Bool() {
+			// a SHORT text with line breaks (and an empty line)
+			t.Description = "two\nlines\n\nand more"
+		}
 	}
 	if zzvrt.Param("DEFAULTS", 0) == 1 && !(zzvrt.Param("NONULL", 0) == 1 && s.nullable) && zzvrt.Bool() {
 		switch s.kind {
